@@ -230,7 +230,7 @@ class Factory(object):
     # ------------------------------------------------------------------ list graders
     def listgrader(self, depth=1):
         rng = self.rng
-        mode = rng.choice(['flat', 'flat', 'subgrader_list', 'grouped', 'multi_answers', 'siblings', 'mixed_items', 'item_kind'])
+        mode = rng.choice(['flat', 'flat', 'subgrader_list', 'grouped', 'multi_answers', 'siblings', 'mixed_items', 'item_kind', 'deep_nesting'])
         cfg = {'partial_credit': rng.random() < 0.7}
         if mode in ('flat', 'multi_answers'):
             n = rng.randint(2, 4)
@@ -275,6 +275,27 @@ class Factory(object):
             desc = {'class': 'ListGrader', 'mode': 'siblings', 'config': cfg, 'answers': answers}
             return {'cls': 'ListGrader', 'desc': desc, 'make': make, 'ninputs': 3, 'good': good, 'partial': partial_in,
                     'wrong': [['1', '2', '3'], ['x', 'q', '2*x'], ['3*x', 'x+', '2*x'], ['sibling_2', 'x', 'x']]}
+        if mode == 'deep_nesting':
+            # grouped list -> inner list -> delimited list -> delimited list of formulas (four levels)
+            ordered = rng.random() < 0.5
+            inner_ordered = rng.random() < 0.5
+
+            def make(**ov):
+                import mitxgraders as M
+                c = dict(cfg)
+                c.update(ov)
+                leaf = M.SingleListGrader(subgrader=M.FormulaGrader(variables=['x']), delimiter=',', ordered=False)
+                mid = M.SingleListGrader(subgrader=leaf, delimiter=';', ordered=True)
+                inner = M.ListGrader(subgraders=mid, ordered=inner_ordered)
+                return M.ListGrader(answers=[[[['x', '2*x'], ['1']], [['x^2'], ['3', 'x']]], [[['0']], [['x+1', 'x+2'], ['5']]]],
+                                    subgraders=inner, ordered=ordered, grouping=[1, 1, 2, 2], **c)
+            desc = {'class': 'ListGrader', 'mode': mode, 'ordered': ordered, 'inner_ordered': inner_ordered, 'config': cfg,
+                    'levels': 'ListGrader(grouping) > ListGrader > SingleListGrader(;) > SingleListGrader(,) > FormulaGrader'}
+            good_in = ['x, 2*x; 1', 'x^2; 3, x', '0', 'x+1, x+2; 5']
+            return {'cls': 'ListGrader', 'desc': desc, 'make': make, 'ninputs': 4,
+                    'good': [good_in, ['2*x, x; 1', 'x*x; x, 3', '0', 'x+2, x+1; 5']],
+                    'partial': [['x, 2*x; 1', 'x^2; 3', '0', 'x+1; 5'], ['x; 1', 'x^2; 3, x', '1', 'x+1, x+2; 5']],
+                    'wrong': [['1', '2', '3', '4'], ['x,, 2*x; 1', 'x^2; 3, x', '0', 'x+1, x+2; 5'], ['x, 2*x; ; 1', '', '0', ';']]}
         if mode == 'mixed_items':
             # one item grader of every other kind side by side in an ordered list
             def make(**ov):
